@@ -1,6 +1,8 @@
 module verifharness
 
-go 1.23
+go 1.23.0
+
+toolchain go1.23.5
 
 require github.com/maruel/panicparse/v2 v2.0.0
 
